@@ -73,6 +73,7 @@ from io import BytesIO
 from types import TracebackType
 from typing import BinaryIO
 
+from dulwich.file import GitFile
 from dulwich.object_format import SHA1
 from dulwich.objects import ZERO_SHA, ObjectID
 from dulwich.refs import (
@@ -1325,7 +1326,7 @@ class ReftableRefsContainer(RefsContainer):
                     os.remove(os.path.join(self.reftable_dir, name))
 
             # Write new tables.list with separate files
-            with open(tables_list_path, "wb") as f:
+            with GitFile(tables_list_path, "wb") as f:
                 for filename in sorted(created_files):  # Sort for deterministic order
                     f.write((filename + "\n").encode())
 
@@ -1467,7 +1468,7 @@ class ReftableRefsContainer(RefsContainer):
                 os.remove(os.path.join(self.reftable_dir, name))
 
         # Write new tables.list with just the consolidated file
-        with open(tables_list_path, "wb") as f:
+        with GitFile(tables_list_path, "wb") as f:
             f.write((new_table_name + "\n").encode())
 
     def _update_tables_list(self) -> None:
@@ -1484,6 +1485,6 @@ class ReftableRefsContainer(RefsContainer):
         ref_files.sort()
 
         # Write to tables.list
-        with open(tables_list_path, "wb") as f:
+        with GitFile(tables_list_path, "wb") as f:
             for name in ref_files:
                 f.write((name + "\n").encode())
